@@ -79,7 +79,11 @@ func WalkPrefix(p *core.Prog, r *core.Report) {
 		// the length subtracted must be the one the condition tested: nothing the expression mentions
 		// is stepped between the test and the subtraction
 		moved := ""
-		ast.Inspect(loop.Body, func(m ast.Node) bool {
+		var after ast.Node = loop.Body // everything from the test on: the loop body, or the body of the guarding if
+		if guard != nil {
+			after = guard.Body
+		}
+		ast.Inspect(after, func(m ast.Node) bool {
 			if m == nil || m.Pos() >= as.Pos() || moved != "" {
 				return m == nil || m.Pos() < as.Pos()
 			}
